@@ -197,6 +197,7 @@ func ruleC16R2(r *Run) {
 }
 
 func ruleC16R3(r *Run) {
+	p := r.P
 	v := r.viewSave()
 	if v == nil {
 		return
@@ -218,18 +219,7 @@ func ruleC16R3(r *Run) {
 			r.Fail("saveFailFile#"+w.Key+".checked", w.Instr.Pos(), "the error result of a write to the fail file is discarded: a short write would be published by the rename")
 			continue
 		}
-		var iff *ssa.If
-		pol := true
-		for _, ref := range *errVal.Referrers() {
-			if bo, ok := ref.(*ssa.BinOp); ok && (bo.Op == token.NEQ || bo.Op == token.EQL) && bo.Referrers() != nil {
-				for _, r2 := range *bo.Referrers() {
-					if i2, ok := r2.(*ssa.If); ok {
-						iff = i2
-						pol = bo.Op == token.NEQ
-					}
-				}
-			}
-		}
+		iff, pol := p.errorTest(errVal, 0)
 		if iff == nil {
 			r.Fail("saveFailFile#"+w.Key+".checked", w.Instr.Pos(), "the error result of a write to the fail file is never tested")
 			continue
@@ -1107,4 +1097,62 @@ func (p *Program) leadingLiteral(v ssa.Value, d int) (string, bool) {
 		}
 	}
 	return "", false
+}
+
+// errorTest finds the branch that tests an error value against nil; an error that is returned by a
+// transparent helper is followed to the helper's call site. pol is true if the true edge is the error edge.
+func (p *Program) errorTest(ev ssa.Value, d int) (*ssa.If, bool) {
+	if ev == nil || ev.Referrers() == nil || d > 3 {
+		return nil, false
+	}
+	for _, ref := range *ev.Referrers() {
+		switch x := ref.(type) {
+		case *ssa.BinOp:
+			if (x.Op == token.NEQ || x.Op == token.EQL) && x.Referrers() != nil {
+				for _, r2 := range *x.Referrers() {
+					if i2, ok := r2.(*ssa.If); ok {
+						return i2, x.Op == token.NEQ
+					}
+				}
+			}
+		case *ssa.Return:
+			site := p.helperSite(x.Parent())
+			c, ok := site.(*ssa.Call)
+			if site == nil || !ok {
+				continue
+			}
+			for k, res := range x.Results {
+				if res != ev {
+					continue
+				}
+				var v ssa.Value = c
+				if len(x.Results) > 1 {
+					es := extractsOf(c, k)
+					if len(es) == 0 {
+						continue
+					}
+					v = es[0]
+				}
+				if iff, pol := p.errorTest(v, d+1); iff != nil {
+					return iff, pol
+				}
+			}
+		case *ssa.Store:
+			// result cell of a function with defers: the load in the same block is what is returned
+			if a, ok := x.Addr.(*ssa.Alloc); ok && a.Referrers() != nil {
+				for _, r2 := range *a.Referrers() {
+					if ld, ok := r2.(*ssa.UnOp); ok && ld.Block() == x.Block() {
+						if iff, pol := p.errorTest(ld, d+1); iff != nil {
+							return iff, pol
+						}
+					}
+				}
+			}
+		case *ssa.Phi:
+			if iff, pol := p.errorTest(x, d+1); iff != nil {
+				return iff, pol
+			}
+		}
+	}
+	return nil, false
 }
